@@ -61,6 +61,19 @@ tolerance was changed, every new execution is judged by the module's own monitor
       generator for the first width and for every width that is exactly representable in float32 and passed as a typed scalar
       (np.float32(w) == np.float64(w), equal hashes), the first damping kernel of width >= 2 (same width, shape, spacing, origins), the
       first filter object (same order, type, field type, shape).
+  (e) call history on the SAME array objects (Brinkmann, every variant incl. the Lagrangian one): one output / field / target /
+      INDICATOR array object and one penalty-factor object per (variant, penalty in {1e12, random}); three calls, before each the
+      field, target and indicator are refreshed IN PLACE (moving body; indicator classes with exact 0 / 1) and the output refilled with
+      sentinels; each call judged by the unchanged monitor (bounds, chi == 0 => field, approach to the target at 1e12).
+  (f) ALIASED arguments (in-place penalisation): the output array IS the field input, resp. IS the target input (scalar, vector,
+      Lagrangian; the fixed-value variants have no target array, output-is-field only).  Confirmed alias-safe on the unchanged tree for
+      every pattern (element-wise kernels: cell i is read before cell i is written and no neighbour is read; seeds 0..3 quick, 0
+      thorough), so no pattern had to be skipped.  The pre-call contents are the monitor's field / target.
+  Self-test of (e), (f): independently written patches /tmp/wt/out3_C19/A (3-D vector wrapper caches the blending weight while the penalty
+      is equal and `char_field is` the retained object) -> before HELD (reported missed), now brinkmann-chi0-changes-field,
+      brinkmann-no-approach-to-target on call 2 of 3 of the same-objects history; /tmp/wt/out3_C19/B (Lagrangian kernel builds the result
+      in the output buffer before reading the flow velocity) -> before HELD, now brinkmann-zero-penalty-changes-field,
+      brinkmann-out-of-[f,t] with 'aliasing': 'output-is-field'.
   Self-test of (a)-(d) (tools/mut.sh, quick, seed 0; "before" = this module at the commit preceding the change, run from a git worktree):
   penalise_field_boundary_2d.py  x-front broadcast target field[:, :width] -> np.ascontiguousarray(field)[:, :width] (a copy, hence a lost
                                  write, exactly when the field is not C-contiguous)         before HELD; now damping-ring!=0, damping-zone>inner-edge-max
@@ -201,6 +214,8 @@ REQUIRE = {
     "filter_calls_on_temporary_views": 32,
     "filter_objects_with_noncontiguous_work_buffers": 4,
     "other_precision_predecessors": 20,
+    "brinkmann_calls_on_same_array_objects_refreshed_in_place": 60,
+    "brinkmann_calls_with_output_aliasing_an_input": 80,
     "other_precision_predecessors_equal_typed_width": 4,
 }
 LAMBDAS = [0.0] + [10.0**p for p in range(13)]
@@ -509,6 +524,81 @@ def _brink(sh, rec):
                 _brink_monitor(rec, label, lambda lam, k=k: S["out"][k], S["f"][k], tk, ck, real_t, (d, sh["dtype"], "temporary-view-history"),
                                {**meta, "history_call": f"{k + 1} of {K} with temporary views of different memory"}, lambdas=[lams[k]])
                 rec.count("brinkmann_calls_with_temporary_view_arguments")
+        variants = [("scalar", ks, ()), ("vector", kv, (d,))] + ([("fixed-val-scalar", kfs, ()), ("fixed-val-vector", kfv, (d,))] if d == 2 else [])
+
+        def kcall(label, kern, out, f, t, chi, la, vals):
+            if label == "scalar":
+                kern(penalised_field=out, field=f, char_field=chi, penalty_field=t, penalty_factor=la)
+            elif label == "vector":
+                kern(penalised_vector_field=out, penalty_factor=la, char_field=chi, penalty_vector_field=t, vector_field=f)
+            elif label == "fixed-val-scalar":
+                kern(penalised_field=out, field=f, char_field=chi, penalty_factor=la, penalty_val=vals[0])
+            else:
+                kern(penalised_vector_field=out, penalty_factor=la, char_field=chi, penalty_val=vals, vector_field=f)
+
+        # (e) call history on the SAME array objects (moving body): one set of array objects (output, field, target, indicator) and ONE
+        # penalty-factor object per (variant, penalty); three calls, before each the field, the target and the INDICATOR are refreshed
+        # IN PLACE (new admissible values incl. exact 0 / 1) and the output is refilled with sentinels; every call judged by the monitor
+        for label, kern, lead in variants:
+            for lam in (1e12, float(LAMBDAS[1 + int(rng.integers(0, 8))])):
+                la = lam_arg(lam)
+                full = (*lead, *shape)
+                out, f, t, chi = np.empty(full, real_t), np.empty(full, real_t), np.empty(full, real_t), np.empty(shape, real_t)
+                vals = (float(real_t(rng.standard_normal() * 4)), float(real_t(-rng.uniform(0.5, 9))))
+                for icall in range(3):
+                    pr = _ft_pairs(rng, full, real_t)
+                    p_ = pr[int(rng.integers(len(pr)))]
+                    f[...] = p_[1]
+                    t[...] = p_[2]
+                    chi[...] = _chis(rng, shape, real_t)[icall][1]  # uniform with exact 0/1 patches, binary, tiny
+                    out[...] = util.sentinel_like(rng, full, real_t)
+                    f0, t0, c0 = f.copy(), t.copy(), chi.copy()
+                    mh = {**meta, "same_array_objects_refreshed_in_place": f"call {icall + 1} of 3", "penalty": lam}
+                    try:
+                        kcall(label, kern, out, f, t, chi, la, vals)
+                    except Exception as e:
+                        rec.violation("brinkmann-raises", f"{label} call {icall + 1} on the same array objects: {type(e).__name__}: {e} {meta}", {"meta": mh})
+                        break
+                    rec.count("brinkmann_calls_on_same_array_objects_refreshed_in_place")
+                    rec.check(util.bits_equal(f, f0) and util.bits_equal(t, t0) and util.bits_equal(chi, c0), "brinkmann-input-modified", f"{label} kernel modified an input {mh}")
+                    if label == "fixed-val-scalar":
+                        tk = np.asarray(real_t(vals[0]))
+                    elif label == "fixed-val-vector":
+                        tk = np.array(vals, real_t)[:, None, None]
+                    else:
+                        tk = t0
+                    res = out.copy()
+                    _brink_monitor(rec, label, lambda lam_, res=res: res, f0, tk, c0 if not lead else c0[None], real_t, (d, sh["dtype"], "same-objects-history", icall), mh, lambdas=[lam])
+        # (f) ALIASED arguments (in-place penalisation): the output array IS the field input resp. IS the target input.  The kernels are
+        # element-wise (cell i is read before cell i is written, no neighbour is read), so the pre-call contents play the role of field / target
+        for label, kern, lead in variants:
+            for alias in ("output-is-field", "output-is-target"):
+                if alias == "output-is-target" and label.startswith("fixed-val"):
+                    continue
+                full = (*lead, *shape)
+                pr = _ft_pairs(rng, full, real_t)
+                p_ = pr[int(rng.integers(len(pr)))]
+                f0, t0 = p_[1], p_[2]
+                chi = chis[int(rng.integers(len(chis)))][1]
+                vals = (float(real_t(rng.standard_normal() * 4)), float(real_t(-rng.uniform(0.5, 9))))
+                ma = {**meta, "aliasing": alias}
+
+                def run_a(lam, label=label, kern=kern, alias=alias, f0=f0, t0=t0, chi=chi, vals=vals, ma=ma):
+                    fa, ta, ca = f0.copy(), t0.copy(), chi.copy()
+                    out = fa if alias == "output-is-field" else ta
+                    kcall(label, kern, out, fa, ta, ca, lam_arg(lam), vals)
+                    rec.count("brinkmann_calls_with_output_aliasing_an_input")
+                    other_ok = util.bits_equal(ta, t0) if out is fa else util.bits_equal(fa, f0)
+                    rec.check(other_ok and util.bits_equal(ca, chi), "brinkmann-input-modified", f"{label} kernel modified an input that is not the output {ma}")
+                    return out
+
+                if label == "fixed-val-scalar":
+                    tk = np.asarray(real_t(vals[0]))
+                elif label == "fixed-val-vector":
+                    tk = np.array(vals, real_t)[:, None, None]
+                else:
+                    tk = t0
+                _brink_monitor(rec, label, run_a, f0, tk, chi if not lead else chi[None], real_t, (d, sh["dtype"], alias), ma, lambdas=[0.0, 1.0, 1e3, 1e12])
     # Lagrangian numba variant: (f + c dt t)/(1 + c dt); indicator == 1 on every marker, lambda = c dt
     pen = BrinkmannBoundaryForcing.brinkmann_penalise_lag_grid_velocity_field
     layl = _Layout(rng, rec, "brinkmann_lagrangian_calls_with_noncontiguous_array_arguments", modes=("pad", "step"))
@@ -550,6 +640,36 @@ def _brink(sh, rec):
             return out
 
         _brink_monitor(rec, "lagrangian-dt0", run_d0, f, t, np.zeros(shp, real_t), real_t, (d, sh["dtype"], "dt0"), meta, lambdas=[0.0, 1.0, 1e3])
+        # (e) the SAME output / flow-velocity / body-velocity array objects, refilled in place before each of three calls
+        out, fo_, to_ = np.empty(shp, real_t), np.empty(shp, real_t), np.empty(shp, real_t)
+        for icall in range(3):
+            pr = _ft_pairs(rng, shp, real_t)
+            p_ = pr[int(rng.integers(len(pr)))]
+            fo_[...] = p_[1]
+            to_[...] = p_[2]
+            out[...] = util.sentinel_like(rng, shp, real_t)
+            lam = float(LAMBDAS[int(rng.integers(0, len(LAMBDAS)))])
+            pen(out, fo_, to_, lam, 1.0)
+            rec.count("brinkmann_lagrangian_calls")
+            rec.count("brinkmann_calls_on_same_array_objects_refreshed_in_place")
+            _brink_monitor(rec, "lagrangian", lambda lam_, res=out.copy(): res, fo_.copy(), to_.copy(), np.ones(shp, real_t), real_t, (d, sh["dtype"], "same-objects-history"),
+                           {**meta, "same_array_objects_refreshed_in_place": f"call {icall + 1} of 3"}, lambdas=[lam])
+        # (f) aliased arguments: the penalised velocity is written over the flow velocity resp. over the body velocity
+        for alias in ("output-is-field", "output-is-target"):
+            pr = _ft_pairs(rng, shp, real_t)
+            p_ = pr[int(rng.integers(len(pr)))]
+            ma = {**meta, "aliasing": alias}
+
+            def run_la(lam, f0=p_[1], t0=p_[2], alias=alias, ma=ma):
+                fa, ta = f0.copy(), t0.copy()
+                out = fa if alias == "output-is-field" else ta
+                pen(out, fa, ta, float(lam), 1.0)
+                rec.count("brinkmann_lagrangian_calls")
+                rec.count("brinkmann_calls_with_output_aliasing_an_input")
+                rec.check(util.bits_equal(ta, t0) if out is fa else util.bits_equal(fa, f0), "brinkmann-input-modified", f"lagrangian kernel modified an input that is not the output {ma}")
+                return out
+
+            _brink_monitor(rec, "lagrangian", run_la, p_[1], p_[2], np.ones(shp, real_t), real_t, (d, sh["dtype"], alias), ma, lambdas=[0.0, 1.0, 1e3, 1e6, 1e12])
         # history of temporary views (markers of K bodies kept in one array each)
         K = 4
         pr = _ft_pairs(rng, shp, real_t)
